@@ -16,8 +16,8 @@ pub static CLOSE_CHANNEL_ON_CANCEL: AtomicBool = AtomicBool::new(false);
 /// client's protocol header (it is then already in the client's socket at its first poll).
 pub static EAGER_START: AtomicBool = AtomicBool::new(false);
 
-/// When non-zero: the client's next write after it has read Tune (TuneOk + Open) stalls its thread
-/// for that many ms (the I/O thread is descheduled in the middle of the handshake).
+/// When non-zero: after the client has read Tune and written TuneOk + Open, its I/O thread stalls for
+/// that many ms at the end of that pass (descheduled in the middle of the handshake).
 pub static PARK_WRITE_AFTER_TUNE_MS: std::sync::atomic::AtomicU64 = std::sync::atomic::AtomicU64::new(0);
 
 fn gen_loop<F: Fn(&mut [u8]) -> Result<usize, usize>>(f: F) -> Vec<u8> {
@@ -179,7 +179,10 @@ pub fn auto_broker(peer: Peer, cfg: AutoConfig, stop: Arc<AtomicBool>, seen: Arc
                     std::thread::sleep(Duration::from_millis(cfg.step_delay_ms));
                     let park = PARK_WRITE_AFTER_TUNE_MS.load(Ordering::SeqCst);
                     if park > 0 {
-                        peer.park_next_write(park);
+                        // the pass that writes TuneOk + Open ends with a re-registration for readable
+                        // only: the thread stalls there, so that the server's OpenOk and the first
+                        // timer expiry are both waiting when it polls again
+                        peer.park_next_rereg_ronly(park);
                     }
                     Some(tune(cfg.ch_max, cfg.frame_max, cfg.heartbeat))
                 }
